@@ -120,10 +120,10 @@ pub fn run(tier: Tier, replay: Option<Value>) -> ! {
     }
     let cases: Vec<Value> = scripts.iter().map(|s| json!({"s": s, "mode": "file"})).collect();
     let t0 = std::time::Instant::now();
-    let brush = common::run_scripts(&cases, 20_000);
+    let brush = common::run_scripts(&cases, 5_000);
     eprintln!("  brush side: {:.1}s", t0.elapsed().as_secs_f64());
     let t0 = std::time::Instant::now();
-    let bashr = bash::run_files(bash::BASH, &scripts, 20_000);
+    let bashr = bash::run_files(bash::BASH, &scripts, 4_000);
     eprintln!("  bash side: {:.1}s", t0.elapsed().as_secs_f64());
     for i in 0..scripts.len() {
         rep.evaluations += 1;
